@@ -6,6 +6,7 @@ import (
 	"math"
 	"path/filepath"
 	"sort"
+	"time"
 
 	wcmd "github.com/hnakamur/whispertool/cmd"
 
@@ -30,6 +31,7 @@ type c18Case struct {
 	Until   int64  `json:"until"`
 	Header  bool   `json:"header"`
 	Sort    bool   `json:"sort"`
+	Zone    int    `json:"local_zone_offset_s,omitempty"` // the process's local time zone while the command runs
 }
 
 func init() {
@@ -52,6 +54,9 @@ var c18Palettes = [][3]float64{
 func c18Choices(pal int, n int) []SlotChoice {
 	p := c18Palettes[pal]
 	ch := []SlotChoice{{Kind: "absent"}, {Kind: "value", V: p[0]}, {Kind: "stale", V: p[2]}, {Kind: "value", V: p[1]}}
+	if n == 5 { // {absent, value, older lap, newer lap}: a file written under a clock that is ahead of the viewer's
+		return []SlotChoice{ch[0], ch[1], ch[2], {Kind: "newer", V: p[1]}}
+	}
 	return ch[:n]
 }
 
@@ -90,9 +95,14 @@ func c18Eval(c *fw.Ctx, k c18Case, bf *BFile) (sig, desc string, nontrivial bool
 	} else {
 		cmd = &wcmd.ViewRawCommand{SrcBase: dir, SrcRelPath: "a.wsp", From: tsOf(k.From), Until: tsOf(k.Until), ArchiveID: k.Archive, ShowHeader: k.Header, SortsByTime: k.Sort, TextOut: out}
 	}
+	oldLocal := time.Local
+	if k.Zone != 0 {
+		time.Local = time.FixedZone("verif", k.Zone) // the output must be UTC whatever the local zone is
+	}
 	err, pn := RunCommand(k.Now, cmd)
+	time.Local = oldLocal
 	text := readAndRemove(out)
-	ctx := fmt.Sprintf("%s layout %s now=%d palette=%d slots=%v archive=%d from=%d until=%d header=%v sort=%v", k.Cmd, k.Layout, k.Now, k.Palette, k.Code, k.Archive, k.From, k.Until, k.Header, k.Sort)
+	ctx := fmt.Sprintf("%s layout %s now=%d palette=%d slots=%v archive=%d from=%d until=%d header=%v sort=%v zone=%+ds", k.Cmd, k.Layout, k.Now, k.Palette, k.Code, k.Archive, k.From, k.Until, k.Header, k.Sort, k.Zone)
 	if pn != "" {
 		return "C18/" + k.Cmd + "/panic", ctx + ": " + firstLine(pn), false
 	}
@@ -176,7 +186,16 @@ func runC18(c *fw.Ctx) {
 		nchoices int
 		pals     []int
 	}
-	lays := []lay{{"L3", 4, []int{0, 1, 2, 3, 4}}, {"L4", 4, []int{0, 1, 2, 3, 4}}, {"L8", 3, []int{0, 2}}, {"L10", 3, []int{1, 4}}}
+	lays := []lay{{"L3", 4, []int{0, 1, 2, 3, 4}}, {"L4", 4, []int{0, 1, 2, 3, 4}}, {"L8", 3, []int{0, 2}}, {"L10", 3, []int{1, 4}}, {"L4", 5, []int{0, 3}}, {"L3", 5, []int{1}}}
+	if c.Shard == 0 {
+		for _, z := range []int{0, 9 * 3600} {
+			sig, desc := c18Big(c, Clocks(LP.Archs, false, []string{"mid"})[1], z)
+			c.Count("evaluations", 1)
+			if sig != "" {
+				c.Violate(sig, desc, 5000, c18Case{Layout: "LP", Now: Clocks(LP.Archs, false, []string{"mid"})[1], Zone: z}, "")
+			}
+		}
+	}
 	if c.Thorough() {
 		lays = append(lays, lay{"L5", 3, []int{0, 1}}, lay{"L8", 4, []int{1, 3}}, lay{"L10", 4, []int{0, 2, 3}})
 	}
@@ -204,7 +223,7 @@ func runC18(c *fw.Ctx) {
 					rw := [][2]int64{{0, 0}, {now - 3, now - 1}, {now - rmax - int64(l.Archs[0].Step), now - 2}, {1, 0}}
 					for _, id := range ids {
 						for wi, w := range vw {
-							k := c18Case{Layout: ly.tag, Method: l.Method, Now: now, Palette: pal, Code: cd, Cmd: "view", Archive: id, From: w[0], Until: w[1], Header: (wi+id)%2 == 0}
+							k := c18Case{Layout: ly.tag, Method: l.Method, Now: now, Palette: pal, Code: cd, Cmd: "view", Archive: id, From: w[0], Until: w[1], Header: (wi+id)%2 == 0, Zone: []int{0, 0, 9 * 3600, -(5*3600 + 1800)}[(wi+id+len(cd)+cd[0])%4]}
 							c18One(c, k, bf)
 						}
 						for wi, w := range rw {
@@ -246,11 +265,75 @@ func replayC18(c *fw.Ctx, raw json.RawMessage) (bool, string) {
 	if err := json.Unmarshal(raw, &k); err != nil {
 		return false, err.Error()
 	}
-	for _, n := range []int{4, 3} {
+	if k.Layout == "LP" {
+		sig, desc := c18Big(c, k.Now, k.Zone)
+		return sig != "", desc
+	}
+	for _, n := range []int{4, 3, 5} {
 		if bf := c18File(k, n); bf != nil {
 			sig, desc, _ := c18Eval(c, k, bf)
 			return sig != "", desc
 		}
 	}
 	return false, "cannot rebuild the file"
+}
+
+// c18Big: a multi-page archive (700 slots, more than one 4 KiB page of 12-byte slots) filled completely and wrapped:
+// view-raw must list all 700 physical slots exactly, and every view point must be among them.
+func c18Big(c *fw.Ctx, now int64, zone int) (string, string) {
+	l := wsp.Layout{Archs: LP.Archs, Method: 2, XFF: 0}
+	r := EmptyRings(l)
+	for j, t := range SlotTimes(l.Archs[0], now) {
+		if j%5 != 3 {
+			r[0][uint32(t)%700] = wsp.Slot{T: uint32(t), V: float64(j) + 0.125}
+		}
+	}
+	for j, t := range SlotTimes(l.Archs[1], now) {
+		r[1][uint32(t/100)%14] = wsp.Slot{T: uint32(t), V: -float64(j)}
+	}
+	bf := &BFile{L: l, Rings: r, Base: []int{123, 5}}
+	dir := filepath.Join(c.Dir, "c18big")
+	bf.Write(filepath.Join(dir, "a.wsp"))
+	phys := wsp.FromRings(l, r, bf.Base)
+	out := filepath.Join(dir, "out.txt")
+	oldLocal := time.Local
+	if zone != 0 {
+		time.Local = time.FixedZone("verif", zone)
+	}
+	defer func() { time.Local = oldLocal }()
+	for _, srt := range []bool{false, true} {
+		cmd := &wcmd.ViewRawCommand{SrcBase: dir, SrcRelPath: "a.wsp", ArchiveID: -1, ShowHeader: false, SortsByTime: srt, TextOut: out}
+		err, pn := RunCommand(now, cmd)
+		_, pts, _, bad := SplitOutput(readAndRemove(out))
+		if err != nil || pn != "" || bad != "" {
+			return "C18/view-raw/big-archive/failed", fmt.Sprintf("view-raw of the 700-slot archive: %v %s %s", err, firstLine(pn), bad)
+		}
+		var want []PointRec
+		for i := range l.Archs {
+			var sel []PointRec
+			for _, sl := range phys.Slots[i] {
+				if int64(sl.T) <= now {
+					sel = append(sel, PointRec{i, int64(sl.T), sl.V})
+				}
+			}
+			if srt {
+				sort.SliceStable(sel, func(a, b int) bool { return sel[a].T < sel[b].T })
+			}
+			want = append(want, sel...)
+		}
+		if msg := comparePoints(pts, want); msg != "" {
+			return "C18/view-raw/big-archive/slots", fmt.Sprintf("view-raw (sort=%v, zone %+ds) of a 700-slot archive spanning three pages: %s", srt, zone, msg)
+		}
+	}
+	cmd := &wcmd.ViewCommand{SrcBase: dir, SrcRelPath: "a.wsp", ArchiveID: -1, ShowHeader: false, TextOut: out}
+	err, pn := RunCommand(now, cmd)
+	_, pts, _, bad := SplitOutput(readAndRemove(out))
+	if err != nil || pn != "" || bad != "" {
+		return "C18/view/big-archive/failed", fmt.Sprintf("view of the 700-slot archive: %v %s %s", err, firstLine(pn), bad)
+	}
+	exp, _ := ExpRead(l, r, -1, 0, now, now)
+	if msg := comparePoints(pts, expPoints(exp)); msg != "" {
+		return "C18/view/big-archive/points", "view of a 700-slot archive: " + msg
+	}
+	return "", ""
 }
